@@ -8,6 +8,7 @@ import (
 	"io"
 	"os/exec"
 	"path/filepath"
+	"strings"
 
 	"gtverif/gen"
 	"gtverif/model"
@@ -145,6 +146,14 @@ func runC17(c *Ctx) bool {
 	}
 	for _, dg := range gen.Degenerate {
 		emit("degenerate", dg)
+	}
+	// lines around bufio.Scanner's 64 KiB limit, first / in the middle / last
+	for _, n := range []int{65533, 65534, 65535, 65536, 70000} {
+		long := "- " + strings.Repeat("x", n-2)
+		emit("size-extreme", long+"\n")
+		emit("size-extreme", "- a\n  - b\n"+long+"\n- c\n")
+		emit("size-extreme", "- a\n  - b\n  "+long)
+		emit("size-extreme", "\n\n"+long+"\n  - kid\n")
 	}
 	nMax := c.Pick(5, 7)
 	gen.ForEachLabeled(nMax, 2, ExtAlphabet, func(i int, f model.Forest) {
